@@ -92,6 +92,32 @@ def run(ctx: Ctx) -> int:
     stats = run_cases(ctx, cases, det=False, label="noise", model_max=(30 if ctx.quick else 200), elab=True,
                       deadline=time.time() + (150 if ctx.quick else 1500))
     ctx.cov.update({"stats": stats})
+    # the SAMPLED channel bits (not only the tables): a chain of 9..12 elements in which exactly one element fires with certainty flips
+    # exactly that element's qubit in every shot of the public sampler; and a chain whose elements all have p < 1 flips at most one qubit
+    import numpy as np
+    import tsim
+    for k in (9, 10, 12):
+        for j in sorted({0, 4, 7, 8, k - 1}):
+            text = "\n".join(f"{'E' if i == 0 else 'ELSE_CORRELATED_ERROR'}({1 if i == j else 0}) X{i}" for i in range(k)) + "\nM " + " ".join(map(str, range(k)))
+            try:
+                arr = np.asarray(tsim.Circuit(text).compile_sampler(seed=11).sample(32)).astype(int)
+            except Exception as e:
+                ctx.violation(f"chain-sampling-raises:{k}:{j}", f"sampling a {k}-element chain raised {e!r}", {"text": text, "kind": "chain-sampling"})
+                continue
+            ctx.count(("chain-sampling", k, j), nontrivial=True, bucket="sampled-long-chain")
+            want = np.zeros(k, dtype=int)
+            want[j] = 1
+            if not (arr == want[None, :]).all():
+                ctx.violation(f"chain-sampling:{k}-elements", f"a {k}-element chain whose element {j} fires with certainty: the sampler returned {arr[0].tolist()} (first shot), expected only qubit {j} flipped",
+                              {"text": text, "kind": "chain-sampling", "expected": want.tolist()})
+                break
+        text = "\n".join(f"{'E' if i == 0 else 'ELSE_CORRELATED_ERROR'}(0.5) X{i}" for i in range(k)) + "\nM " + " ".join(map(str, range(k)))
+        arr = np.asarray(tsim.Circuit(text).compile_sampler(seed=5).sample(512)).astype(int)
+        ctx.count(("chain-sampling-uniform", k), nontrivial=True, bucket="sampled-long-chain")
+        if (arr.sum(axis=1) > 1).any() or abs((arr.sum(axis=1) == 0).mean() - 0.5 ** k) > 0.03:
+            ctx.violation(f"chain-sampling-halves:{k}-elements", f"a {k}-element chain with p=1/2 per element: {int((arr.sum(axis=1) > 1).sum())} of 512 shots flip more than one qubit, "
+                          f"{int((arr.sum(axis=1) == 0).sum())} flip none (expected about {512 * 0.5 ** k:.1f})",
+                          {"text": text, "kind": "chain-sampling"})
     if ctx.broken and not ctx.violations:
         report_broken_without_input(ctx)
     return ctx.finish(
